@@ -10,6 +10,7 @@ import LouModel.Driver
 import LouModel.Forward
 import LouModel.ForwardCtx
 import LouModel.Backward
+import LouModel.BackwardCtx
 import LouModel.Pass
 
 namespace Lou.Engine
@@ -47,6 +48,23 @@ def modelEngineC (t : Table) : Engine := fun ini _hist pin =>
     match Pass.fwdStage t pin.passNo pin.chars pin.maxlen with
     | .done o => { out := o.out, map := o.map, realInlen := o.realInlen, cpos := pin.cpos, cstat := pin.cstat }
     | _ => { out := [], map := [], realInlen := 0, cpos := pin.cpos, cstat := pin.cstat }
+
+/-- the backward engine with the main pass of BackwardCtx.lean (B0 + context rules) -/
+def modelEngineBackC (t : Table) : Engine := fun ini _hist pin =>
+  if pin.passNo == 1 then
+    match BackC.translateC t ini.mode pin.chars pin.maxlen pin.cpos with
+    | .done r => { out := r.out, map := r.map.map (fun o => o.getD 0), realInlen := r.realInlen, cpos := r.cpos, cstat := r.cstat }
+    | .failed => { out := [], map := [], realInlen := 0, cpos := pin.cpos, cstat := pin.cstat, ok := false }
+    | _ => { out := [], map := [], realInlen := 0, cpos := pin.cpos, cstat := pin.cstat }
+  else
+    match Pass.backStage t pin.passNo pin.chars pin.maxlen with
+    | .done o => { out := o.out, map := o.map.take o.realInlen, realInlen := o.realInlen, cpos := pin.cpos, cstat := pin.cstat }
+    | _ => { out := [], map := [], realInlen := 0, cpos := pin.cpos, cstat := pin.cstat }
+
+def hasContextBack (t : Table) : Bool :=
+  !(t.backPassChain 1).isEmpty || t.rules.any (fun r => r.opcode == CTO_Context && !r.chars.isEmpty)
+
+def engineForBack (t : Table) : Engine := if hasContextBack t then modelEngineBackC t else modelEngineBack t
 
 /-- does the forward main pass of `t` see context rules -/
 def hasContextFwd (t : Table) : Bool :=
@@ -101,12 +119,15 @@ def callFwd (t : Table) (disp : Nat → Nat) (a : Args) : Except String (Result 
     .ok (fwd (some ti) disp (engineFor t) a, h)
 
 def callBack (t : Table) (dotsFor : Nat → Nat) (a : Args) : Except String (Result × List (PassIn × PassOut)) :=
-  match mainGuardBack t with
+  match (if hasContextBack t then BackC.unsupportedC t else mainGuardBack t) with
   | some why => .error why
   | none =>
     let ti := tableInfo t
-    let h := (backRun ti dotsFor (modelEngineBack t) a).hist
+    let h := (backRun ti dotsFor (engineForBack t) a).hist
     if stageUncovered t true h then .error "stage outside the pass fragment" else
-    .ok (back (some ti) dotsFor (modelEngineBack t) a, h)
+    if hasContextBack t && h.any (fun x => x.1.passNo == 1 &&
+        (match BackC.translateC t a.mode x.1.chars x.1.maxlen x.1.cpos with | .done _ => false | .failed => false | _ => true))
+    then .error "main pass outside the context fragment" else
+    .ok (back (some ti) dotsFor (engineForBack t) a, h)
 
 end Lou.Engine
